@@ -105,13 +105,14 @@ def Registry.addToggle (reg : Registry) (n : Bytes) : Registry := { reg with tog
 
 /-- `QualifierParser(prefix)`: name, then the value parser of the name's registered type.  An
 unknown name is tried as quoted, literal, toggle in this order and registered under the first
-type that parses; if none does, NOTHING fails: the value is the stale token, i.e. the name. -/
+type that parses; if none does, NOTHING fails: the value is the stale token, i.e. the name.
+The value of a name that is (or has just been learned as) a toggle is empty (repo 2dd2956). -/
 def qualifier (pre : Bytes) (reg : Registry) : P ((Bytes × Bytes) × Registry) := do
   let name ← qualifierName pre
   match reg.typeOf name with
   | .quoted => do let v ← quotedValue pre; pure ((name, v), reg)
   | .literal => do let v ← literalValue pre; pure ((name, v), reg)
-  | .toggle => do let v ← eol; pure ((name, v), reg)
+  | .toggle => do let _ ← eol; pure ((name, []), reg)      -- 2dd2956: a toggle has no value
   | .unknown =>
     match ← attempt (quotedValue pre) with
     | some v => pure ((name, v), reg.addQuoted name)
@@ -120,7 +121,7 @@ def qualifier (pre : Bytes) (reg : Registry) : P ((Bytes × Bytes) × Registry) 
       | some v => pure ((name, v), reg.addLiteral name)
       | none =>
         match ← attempt eol with
-        | some v => pure ((name, v), reg.addToggle name)
+        | some _ => pure ((name, []), reg.addToggle name)
         | none => pure ((name, name), reg)
 
 /-- `pars.Many(qualifierParser)`: until the first failure, whose leftovers stay -/
